@@ -1,5 +1,10 @@
 import PPLV.Interval.ProofsSet
 import PPLV.Interval.ProofsDiv
+import PPLV.Interval.ProofsExact
+import PPLV.Interval.ProofsMulExact
+import PPLV.Interval.ProofsRefine
+import PPLV.Interval.ProofsLF
+import PPLV.Interval.ProofsWiden
 import Mathlib.Tactic.NormNum
 /-!
 # C12 — interval arithmetic encloses every concrete result
@@ -114,6 +119,53 @@ theorem op_encloses_partial (pol : Policy) (R : Rounding) (hR : R.Sound) (op : I
   · exact mulAssign_encloses_asWritten hR (hd3 rfl) ha hb
   · exact divAssign_encloses hR ha hb hd
 
+
+/-! ## exactness when the rounding is the identity -/
+
+/-- With exact rounding, negation, sum and difference return **exactly** the image of the operands
+(which is an interval, hence the least interval containing the image), openness of each bound and
+infinities included; for every policy.  (For the product see `mul_hull_closed_bounded`.) -/
+theorem op_exact (pol : Policy) (d3 : Bool) (op : IvOp) (hop : op = .neg ∨ op = .add ∨ op = .sub) (I J : Iv)
+    (hI : ∃ a, I.mem pol a) (hJ : ∃ b, J.mem pol b) (c : Rat) :
+    (IvOp.run d3 pol Rounding.id op I J).mem pol c ↔ ∃ a b, I.mem pol a ∧ J.mem pol b ∧ c = op.exact a b := by
+  rcases hop with rfl | rfl | rfl
+  · obtain ⟨b0, hb0⟩ := hJ
+    simp only [IvOp.run, IvOp.exact]
+    rw [negAssign_exact]
+    constructor
+    · intro h; exact ⟨-c, b0, h, hb0, by ring⟩
+    · rintro ⟨a, b, ha, _, rfl⟩; simpa using ha
+  · exact addAssign_exact hI hJ
+  · exact subAssign_exact hI hJ
+
+/-- non-vacuity: `(0,1] + [2,3) = (2,4)`: `4` is not a sum, `3` is -/
+example : ¬ (IvOp.run false Policy.rational Rounding.id .add ⟨⟨fin 0, true⟩, ⟨fin 1, false⟩⟩
+    ⟨⟨fin 2, false⟩, ⟨fin 3, true⟩⟩).mem Policy.rational 4 := by
+  have hv : IvOp.run false Policy.rational Rounding.id .add ⟨⟨fin 0, true⟩, ⟨fin 1, false⟩⟩
+      ⟨⟨fin 2, false⟩, ⟨fin 3, true⟩⟩ = ⟨⟨fin 2, true⟩, ⟨fin 4, true⟩⟩ := by decide +kernel
+  rw [hv]; simp [Iv.mem, lowerOk, upperOk, getOpen, Policy.rational]
+
+
+/-- For the product the hull of the image is always inside the result (any policy, any sound
+rounding) … -/
+theorem mul_hull_subset (pol : Policy) (R : Rounding) (hR : R.Sound) (I J : Iv) (c s1 s2 : Rat)
+    (h1 : ∃ a b, I.mem pol a ∧ J.mem pol b ∧ s1 = a * b) (h2 : ∃ a b, I.mem pol a ∧ J.mem pol b ∧ s2 = a * b)
+    (hc1 : s1 ≤ c) (hc2 : c ≤ s2) : (mulAssign false pol R I J).mem pol c :=
+  mulAssign_hull_subset hR h1 h2 hc1 hc2
+
+/-- … and with exact rounding, for closed bounded operands `[l,u]·[m,n]` (all nine sign cases), the
+result is exactly that hull: the least interval containing the image.
+(`_partial` in the sense of `op_exact`: open or unbounded operands of the product are covered by the
+enclosure theorem and by the correspondence run against the set-level reference, not by a theorem.) -/
+theorem mul_hull_closed_bounded_partial (pol : Policy) (l u m n : Rat) (hx : l ≤ u) (hy : m ≤ n) (c : Rat) :
+    (mulAssign false pol Rounding.id (Iv.closed l u) (Iv.closed m n)).mem pol c ↔
+      ∃ s1 s2, (∃ a b, (Iv.closed l u).mem pol a ∧ (Iv.closed m n).mem pol b ∧ s1 = a * b) ∧
+               (∃ a b, (Iv.closed l u).mem pol a ∧ (Iv.closed m n).mem pol b ∧ s2 = a * b) ∧ s1 ≤ c ∧ c ≤ s2 :=
+  mulAssign_hull_closed hx hy c
+
+example : mulAssign false Policy.rational Rounding.id (Iv.closed (-1) 2) (Iv.closed (-3) 1)
+    = Iv.closed (-6) 3 := by decide +kernel
+
 /-! ## emptiness -/
 
 /-- `is_empty()` answers `true` exactly when the interval has no rational member (bounds on their
@@ -180,6 +232,16 @@ theorem difference_encloses (pol : Policy) (R : Rounding) (hR : R.Sound) (I J : 
     (hI : I.mem pol a) (hJ : ¬ J.mem pol a) : (differenceAssign pol R I J).mem pol a :=
   differenceAssign_encloses hR hI hJ
 
+
+/-- `refine_existential(rel, J)` keeps every member of `I` that is `rel`-related to some member of `J`
+(all six relation symbols) -/
+theorem refine_existential_encloses (pol : Policy) (R : Rounding) (hR : R.Sound) (I J : Iv) (rel : Rel)
+    (a b : Rat) (ha : I.mem pol a) (hb : J.mem pol b) (hrel : rel.holds a b) :
+    (refineExistential pol R I rel J).mem pol a := refineExistential_encloses hR ha hb hrel
+
+example : (refineExistential Policy.rational Rounding.id ⟨⟨fin 0, false⟩, ⟨fin 5, false⟩⟩ .lt
+    ⟨⟨fin 1, false⟩, ⟨fin 3, false⟩⟩) = ⟨⟨fin 0, false⟩, ⟨fin 3, true⟩⟩ := by decide +kernel
+
 /-- `contains` answering `true` is the inclusion of the sets -/
 theorem contains_true (pol : Policy) (I J : Iv) (h : contains pol I J = true) (a : Rat)
     (hJ : J.mem pol a) : I.mem pol a := contains_sound h hJ
@@ -187,6 +249,39 @@ theorem contains_true (pol : Policy) (I J : Iv) (h : contains pol I J = true) (a
 /-- `is_disjoint_from` answering `true`: no common member -/
 theorem is_disjoint_true (pol : Policy) (I J : Iv) (h : isDisjointFrom pol I J = true) (a : Rat) :
     ¬ (I.mem pol a ∧ J.mem pol a) := isDisjointFrom_sound h
+
+
+
+/-- `CC76_widening_assign` (any list of stop points) contains the interval it widens -/
+theorem cc76_widening_encloses (pol : Policy) (I J : Iv) (stops : List Rat) (a : Rat) (h : I.mem pol a) :
+    (cc76Widening pol I J stops).mem pol a := cc76Widening_encloses h
+
+example : cc76Widening Policy.rational ⟨⟨fin (-3/2), false⟩, ⟨fin (1/2), true⟩⟩ ⟨⟨fin (-1), false⟩, ⟨fin 0, false⟩⟩
+    [-2, -1, 0, 1, 2] = ⟨⟨fin (-2), false⟩, ⟨fin 1, true⟩⟩ := by decide +kernel
+
+/-! ## linear forms with interval coefficients -/
+
+/-- `operator+`, `operator-` and `operator*(C, f)` of `Linear_Form<Interval>` enclose
+coefficientwise: if `c` is an instance of `F`, `d` of `G` and `n ∈ N`, then `c + d`, `c − d`,
+`n·c` are instances of `F + G`, `F − G`, `N·F` (forms of any lengths; product with the
+candidate's bits copied, `d3 = false`). -/
+theorem lf_encloses (pol : Policy) (R : Rounding) (hR : R.Sound) (F G : List Iv) (c d : List Rat)
+    (N : Iv) (n : Rat) (hF : lfMem pol F c) (hG : lfMem pol G d) (hn : N.mem pol n) :
+    lfMem pol (lfAdd pol R F G) (vecAdd c d) ∧ lfMem pol (lfSub pol R F G) (vecSub c d)
+      ∧ lfMem pol (lfScale false pol R N F) (c.map (fun a => a * n)) :=
+  ⟨lfAdd_encloses hR hF hG, lfSub_encloses hR hF hG, lfScale_encloses hR hn hF⟩
+
+/-- and the value of a sum of two forms on a store is the sum of the values -/
+theorem lf_value_add (c d rho : List Rat) (h : c.length = d.length) :
+    vecEval (vecAdd c d) rho = vecEval c rho + vecEval d rho := vecEval_add c d rho h
+
+example : lfMem Policy.rational (lfAdd Policy.rational Rounding.id
+    [⟨⟨fin 0, false⟩, ⟨fin 1, false⟩⟩, ⟨⟨fin 2, true⟩, ⟨fin 3, false⟩⟩] [⟨⟨fin 1, false⟩, ⟨fin 1, false⟩⟩])
+    (vecAdd [1, 3] [1]) :=
+  (lf_encloses Policy.rational Rounding.id rounding_exact_sound _ _ [1, 3] [1] ⟨⟨fin 1, false⟩, ⟨fin 1, false⟩⟩ 1
+    (by simp [lfMem, Iv.mem, lowerOk, upperOk, getOpen, Policy.rational]; norm_num)
+    (by simp [lfMem, Iv.mem, lowerOk, upperOk, getOpen, Policy.rational])
+    (by simp [Iv.mem, lowerOk, upperOk, getOpen, Policy.rational])).1
 
 /-! ## wrapping (defect 12) -/
 
